@@ -3,6 +3,7 @@ package main
 import (
 	"fmt"
 	"go/ast"
+	"go/constant"
 	"go/token"
 	"go/types"
 	"golang.org/x/tools/go/ssa"
@@ -201,6 +202,7 @@ func rulesC20(c *Ctx) {
 	shapeC20(c, cn)
 	syntheticC20(c, cn)
 	c.Rule("C20.parens", "ColumnNames looks through parentheses around a field's expression when it tests for a top()/bottom() call, as Field.Name does when it names the column: `(top(value, host, 2))` is the same selector and yields the same extra tag columns")
+	suffixC20(c, cn)
 	stripperTotalRule(c, "C20.parens")
 	parenTransparencyRule(c, "C20.parens", "(*SelectStatement).ColumnNames: selector call inside parentheses", p.SSAFunc(cn), "*Call", "the field expression is tested for *Call directly: for `SELECT (top(value, host, 2))` the tag argument gets no column, though Field.Name names the field `top` all the same")
 }
@@ -540,4 +542,111 @@ func singleDef(p *Program, body *ast.BlockStmt, obj types.Object) ast.Expr {
 		return nil
 	}
 	return def
+}
+
+// suffixC20: the clash resolution consults and feeds the table of taken names.
+func suffixC20(c *Ctx, cn *types.Func) {
+	p := c.P
+	c.Rule("C20.taken", "in ColumnNames every generated candidate name (`name_N`) is looked up in the map of taken names before it is used, and every final name is entered into that map on every path that stores it as a column: a candidate checked only against the columns to its left can equal an alias further right, and a name that is not registered (the empty one, say) is handed out again")
+	f := p.SSAFunc(cn)
+	if f == nil {
+		c.Unk("C20.taken", "(*SelectStatement).ColumnNames", 0, "no SSA body")
+		return
+	}
+	// candidates: strings built from a name and a counter
+	var cands []ssa.Value
+	for _, b := range f.Blocks {
+		for _, in := range b.Instrs {
+			switch x := in.(type) {
+			case *ssa.Call:
+				if cal := x.Call.StaticCallee(); cal != nil && cal.Name() == "Sprintf" && len(x.Call.Args) > 0 {
+					if k, ok := x.Call.Args[0].(*ssa.Const); ok && k.Value != nil && strings.Contains(constant.StringVal(k.Value), "_%d") {
+						cands = append(cands, x)
+					}
+				}
+			case *ssa.BinOp:
+				if x.Op == token.ADD && isStringType(x.Type()) {
+					if call, ok := x.Y.(*ssa.Call); ok && call.Call.StaticCallee() != nil && (call.Call.StaticCallee().Name() == "Itoa" || call.Call.StaticCallee().Name() == "FormatInt") {
+						cands = append(cands, x)
+					}
+				}
+			}
+		}
+	}
+	lookedUp := func(v ssa.Value) bool {
+		for _, b := range f.Blocks {
+			for _, in := range b.Instrs {
+				if lk, ok := in.(*ssa.Lookup); ok && lk.CommaOk {
+					if _, isMap := lk.X.Type().Underlying().(*types.Map); isMap && lk.Index == v {
+						return true
+					}
+				}
+			}
+		}
+		return false
+	}
+	for i, cand := range cands {
+		key := fmt.Sprintf("(*SelectStatement).ColumnNames: candidate #%d looked up", i+1)
+		if lookedUp(cand) {
+			c.OK("C20.taken", key, cand.Pos(), "tested against the map of taken names")
+		} else {
+			c.Bad("C20.taken", key, cand.Pos(), "the generated name is not looked up in the map of taken names: it can coincide with an alias that is registered there")
+		}
+	}
+	if len(cands) == 0 {
+		c.Unk("C20.taken", "(*SelectStatement).ColumnNames: candidates", f.Pos(), "no generated `name_N` candidate found")
+	}
+	// stores of generated/default names into the result: the last loop's store
+	n := 0
+	for _, b := range f.Blocks {
+		for _, in := range b.Instrs {
+			st, ok := in.(*ssa.Store)
+			if !ok || !isStringType(st.Val.Type()) {
+				continue
+			}
+			if _, ok := st.Addr.(*ssa.IndexAddr); !ok {
+				continue
+			}
+			phi, ok := st.Val.(*ssa.Phi)
+			if !ok {
+				continue // aliases and the time column are stored as they are
+			}
+			involves := false
+			for _, e := range phi.Edges {
+				for _, cand := range cands {
+					if e == cand {
+						involves = true
+					}
+				}
+				if p2, ok := e.(*ssa.Phi); ok {
+					for _, e2 := range p2.Edges {
+						for _, cand := range cands {
+							if e2 == cand {
+								involves = true
+							}
+						}
+					}
+				}
+			}
+			if !involves {
+				continue
+			}
+			n++
+			key := fmt.Sprintf("(*SelectStatement).ColumnNames: final name #%d registered", n)
+			registered := false
+			for _, b2 := range f.Blocks {
+				for _, in2 := range b2.Instrs {
+					if mu, ok := in2.(*ssa.MapUpdate); ok && mu.Key == ssa.Value(phi) && (b2 == b || b2.Dominates(b)) {
+						registered = true
+					}
+				}
+			}
+			if registered {
+				c.OK("C20.taken", key, st.Pos(), "entered into the map on every path to the store")
+			} else {
+				c.Bad("C20.taken", key, st.Pos(), "the name is stored as a column on a path that does not enter it into the map of taken names")
+			}
+		}
+	}
+	c.Floor("C20.taken", n+len(cands), 2)
 }
